@@ -172,6 +172,11 @@ class Interp:
             kw[k] = v
             stored = np.asarray(v).astype(dt)
             row[k] = (stored, stored.astype(SAMPLE_DTYPE[dt]))
+        ko = self.case.get("kw_order", 0)
+        if ko:
+            keys = list(kw)
+            keys = keys[::-1] if ko == -1 else keys[ko % len(keys):] + keys[:ko % len(keys)]
+            kw = {k: kw[k] for k in keys}
         return kw, row
 
     def _verify_storage(self, t, where):
@@ -457,6 +462,9 @@ def _cases(draw, multi):
         "schema": draw(st.sampled_from(SCHEMA_NAMES)), "d": draw(st.sampled_from([1, 2, 3])),
         "a": draw(st.sampled_from([1, 2])),
         "ops": prefix + draw(_ops(cap, multi, max(1, n_tasks))),
+        # add_sample takes keyword arguments: the order in which a caller writes them is free.
+        # "kw_order" is a rotation / reversal of the constructor's key order used for every add.
+        "kw_order": draw(st.sampled_from([0, 0, 1, 2, -1])),
     }
     return case
 
